@@ -4,8 +4,8 @@ import vlib
 from props.common import TRUSTED_BASE, ASSUMPTIONS
 
 ID = "C02"
-LEAN_MODULES = ["LexVerif.Props.C02", "LexVerif.Props.RoundNE", "LexVerif.Props.TablesWrite"]
-GEN = ["write_tables"]
+LEAN_MODULES = ["LexVerif.Props.C02", "LexVerif.Props.RoundNE", "LexVerif.Props.TablesWrite", "LexVerif.Props.Literals.WriteFloat", "LexVerif.Props.Literals.WriteInteger"]
+GEN = ["write_tables", "literals"]
 TRUSTED = TRUSTED_BASE + [
     "Dragonbox / Grisu correctness for all inputs is NOT proved in Lean (research-level); proved: the oracle Spec.shortest "
     "(sanity theorems), the formatting model, the caches/log tables; the algorithms are compared with the oracle on G-bits",
